@@ -241,7 +241,7 @@ PProp(T, i) ==
     IN  IF ~IsPropName(tk) THEN Fail(i, "syntax")
         ELSE IF tk.t = "id" /\ tk.v \in {"get", "set"} /\ "src" \notin DOMAIN tk /\ ~IsP(nx, ":") THEN
             \* get PropertyName ( ) { FunctionBody } | set PropertyName ( PropertySetParameterList ) { FunctionBody }
-            (IF ~IsPropName(nx) THEN Fail(i + 1, "syntax")
+            (IF ~IsPropName(nx) /\ ~(D("DP21_object_key_any_token") /\ nx.t = "p") THEN Fail(i + 1, "syntax")
              ELSE LET ky == PropKey(nx)
                       ps == IF IsP(Tk(T, i + 2), "(") THEN PParams(T, i + 3, <<>>) ELSE Fail(i + 2, "syntax")
                   IN  IF ~ky.ok THEN Fail(i + 1, ky.why)
@@ -405,11 +405,20 @@ PSemi(T, i) ==
     IF IsP(tk, ";") THEN Ok(BadNode, i + 1)
     ELSE IF IsP(tk, "}") \/ IsEOF(tk) \/ tk.nl THEN Ok(BadNode, i)
     ELSE Fail(i, "syntax")
+(* otto's scanner notes "a semicolon may be inserted after this token" only   *)
+(* for some tokens; of the tokens that can end a statement it misses the     *)
+(* reserved words used as property names (a.if)                              *)
+KwNoASI(tk) == tk.t = "k" /\ tk.v \notin {"this", "break", "throw", "return", "continue", "debugger", "true", "false", "null"}
+EffNL(T) ==
+    IF ~D("DP23_no_asi_after_keyword_property_name") THEN T
+    ELSE [i \in 1..Len(T) |-> IF i > 1 /\ T[i].nl /\ KwNoASI(T[i - 1]) THEN [T[i] EXCEPT !.nl = FALSE] ELSE T[i]]
 (* otto's semicolon() (var, return, throw, debugger, break/continue with a label) *)
 PSemiS(T, i) ==
     IF ~D("DP09_semicolon_after_newline_not_consumed") THEN PSemi(T, i)
-    ELSE LET tk == Tk(T, i) IN
-         IF IsP(tk, ")") \/ IsP(tk, "}") \/ IsEOF(tk) \/ tk.nl THEN Ok(BadNode, i)     \* a ";" after a line terminator is left over
+    ELSE LET tk == Tk(T, i)
+             eofOK == IsEOF(tk) /\ ~(D("DP23_no_asi_after_keyword_property_name") /\ i > 1 /\ KwNoASI(Tk(T, i - 1)))
+         IN
+         IF IsP(tk, ")") \/ IsP(tk, "}") \/ eofOK \/ tk.nl THEN Ok(BadNode, i)     \* a ";" after a line terminator is left over
          ELSE IF IsP(tk, ";") THEN Ok(BadNode, i + 1)
          ELSE Fail(i, "syntax")
 Then(r, n) == IF r.ok THEN Ok(n, r.i) ELSE r
@@ -656,8 +665,9 @@ SOK(s, ctx) ==
 EarlyOK(prog) == AllS(prog, Ctx0)
 
 (* accept (with the tree) / reject / skip (outside what ES5 decides) *)
-Classify(T) ==
-    LET r == ParseProgram(T) IN
+Classify(T0) ==
+    LET T == EffNL(T0)
+        r == ParseProgram(T) IN
     IF r.ok THEN (IF EarlyOK(r.n) THEN [c |-> "accept", prog |-> r.n] ELSE [c |-> "reject", prog |-> <<>>])
     ELSE IF r.why \in {"ext", "lex"} THEN [c |-> "skip", prog |-> <<>>]
     ELSE [c |-> "reject", prog |-> <<>>]
@@ -760,7 +770,7 @@ TRaw(e, ni, ss, xp) ==
       [] e.k = "cond" -> TE(e.t, 3, ni, ss, xp) \o <<TP("?")>> \o TE(e.a, 1, FALSE, FALSE, xp)
                          \o <<TP(":")>> \o TE(e.b, 1, ni, FALSE, xp)
       [] e.k = "asg" -> TE(e.l, 15, FALSE, ss, xp) \o <<TP(AsgTokOf(e.op))>> \o TE(e.r, 1, ni, FALSE, xp)
-      [] e.k = "dot" -> TE(e.o, 16, FALSE, ss, xp) \o <<TP("."), TI(e.n)>>
+      [] e.k = "dot" -> TE(e.o, 16, FALSE, ss, xp) \o <<TP("."), IF e.n \in KeywordNames THEN TK(e.n) ELSE TI(e.n)>>
       [] e.k = "idx" -> TE(e.o, 16, FALSE, ss, xp) \o <<TP("[")>> \o TE(e.p, 0, FALSE, FALSE, xp) \o <<TP("]")>>
       [] e.k = "call" -> TE(e.f, 16, FALSE, ss, xp) \o TArgs(e.args, xp)
       [] e.k = "new" ->
